@@ -37,7 +37,7 @@ CUR = {'ctx': None, 'case': None}
 
 
 def shards(tier, seed):
-    per = 500 if tier == 'quick' else 3600
+    per = 500 if tier == 'quick' else 30000
     budget = 45 if tier == 'quick' else 540
     return [{'kind': 'random', 'count': per, 'budget_s': budget, 'max_g': 12 if tier == 'quick' else 40} for _ in range(16)]
 
